@@ -133,6 +133,48 @@ theorem lines_roundtrip_lf (ws : List Str) (final : Bool)
       simp at this
       rw [this, ih']; simp [hw.2]
 
+/-- **C12 (CRLF)** `lines` of the CRLF encoding, with or without the final line break, returns the list — also for test
+cases that themselves end in a carriage return (only the one belonging to the line break is dropped) -/
+theorem lines_roundtrip_crlf (ws : List Str) (final : Bool)
+    (h : ∀ w ∈ ws, 10 ∉ w) (hlast : ws.getLast? ≠ some [] ∨ final = true) :
+    splitLines (encodeLines [13, 10] final ws) = ws := by
+  have hline : ∀ (w rest : Str), 10 ∉ w → splitLines.go (w ++ [13, 10] ++ rest) [] = w :: splitLines.go rest [] := by
+    intro w rest hw
+    have h13 : 10 ∉ w ++ [13] := by simp [hw]
+    have := splitLines_go_line [] (w ++ [13]) rest h13
+    simp only [List.reverse_nil, List.nil_append, List.getLast?_append, List.getLast?_singleton, Option.some_or,
+      ite_true, List.dropLast_concat] at this
+    rw [← this]
+    simp
+  unfold splitLines
+  induction ws with
+  | nil => simp [encodeLines, splitLines.go]
+  | cons w rest ih =>
+    have hw := h w (List.mem_cons_self)
+    have hrest : ∀ w ∈ rest, 10 ∉ w := fun x hx => h x (List.mem_cons_of_mem _ hx)
+    cases rest with
+    | nil =>
+      cases final with
+      | true =>
+        simp only [encodeLines, ite_true]
+        have := hline w [] hw
+        simp only [List.append_nil] at this
+        rw [this]; simp [splitLines.go]
+      | false =>
+        simp only [encodeLines, Bool.false_eq_true, ite_false]
+        rw [splitLines_go_noLF [] w hw]
+        have : w ≠ [] := by
+          intro e; subst e; simp at hlast
+        simp [this]
+    | cons w2 rest2 =>
+      have hl : (w2 :: rest2).getLast? ≠ some [] ∨ final = true := by
+        cases hlast with
+        | inl h1 => left; simpa [List.getLast?_cons_cons] using h1
+        | inr h2 => right; exact h2
+      have ih' := ih hrest hl
+      simp only [encodeLines]
+      rw [hline w _ hw, ih']
+
 /-! non-vacuity -/
 example : splitLines (encodeLines [13, 10] true [strOf "a", strOf "b c", []]) = [strOf "a", strOf "b c", []] := by decide
 example : splitLines (encodeLines [10] false [strOf "a", [], strOf "b"]) = [strOf "a", [], strOf "b"] := by decide
